@@ -560,6 +560,67 @@ func c05(run *ev.Run, tier string) {
 			}
 		}
 	}
+	// a backslash in a destination is an ordinary character of a name
+	{
+		list := files.Contents{
+			{Source: fileSrc, Destination: "/opt/app/dos\\name.txt"},
+			{Source: fileSrc, Destination: "/opt/app/dos/name.txt"},
+			{Source: fileSrc, Destination: "/opt/app/a\\b\\c"},
+		}
+		for _, f := range []string{"deb", "rpm", "apk"} {
+			res, err := files.PrepareForPackager(list, 0o022, f, false, mtime)
+			run.Case("backslash-in-destination|"+f, true)
+			if err != nil {
+				run.Violate("C05/valid-list-rejected", map[string]any{"list": "destinations with backslashes", "format": f, "error": err.Error()})
+				continue
+			}
+			got := map[string]bool{}
+			for _, c := range res {
+				got[c.Destination] = true
+			}
+			for _, want := range []string{"/opt/app/dos\\name.txt", "/opt/app/dos/name.txt", "/opt/app/a\\b\\c"} {
+				if !got[want] {
+					run.Violate("C05/backslash-in-destination-treated-as-separator", map[string]any{"format": f, "missing": want, "plan": ev.Short(planString(res), 400)})
+				}
+			}
+			if got["/opt/app/a/"] || got["/opt/app/a/b/"] {
+				run.Violate("C05/backslash-in-destination-treated-as-separator", map[string]any{"format": f, "extra": "/opt/app/a/", "plan": ev.Short(planString(res), 400)})
+			}
+		}
+	}
+	// a glob stays a glob (destination = directory for the matches) also when the
+	// pattern text itself can be stat()ed: a file named like the pattern, or a
+	// pattern component too long for a file name
+	{
+		gd := filepath.Join(dir, "globtext")
+		_ = os.MkdirAll(gd, 0o755)
+		for _, n := range []string{"app1.ini", "app2.ini", "app[1].ini"} {
+			_ = os.WriteFile(filepath.Join(gd, n), []byte(n+"\n"), 0o644)
+		}
+		var alts []string
+		for k := 0; k < 60; k++ {
+			alts = append(alts, fmt.Sprintf("no%03d", k))
+		}
+		long := "{app1,app2," + strings.Join(alts, ",") + "}.ini" // > 255 bytes
+		for _, pat := range []string{"app[1].ini", long} {
+			want := map[bool][]string{true: {"/etc/app/conf.d/app1.ini"}, false: {"/etc/app/conf.d/app1.ini", "/etc/app/conf.d/app2.ini"}}[pat == "app[1].ini"]
+			res, err := files.PrepareForPackager(files.Contents{{Source: gd + "/" + pat, Destination: "/etc/app/conf.d", Type: "config"}}, 0o022, "deb", false, mtime)
+			run.Case("glob-whose-text-can-be-stat()ed|"+ev.Short(pat, 20), true)
+			if err != nil {
+				run.Violate("C05/valid-list-rejected", map[string]any{"list": "glob " + ev.Short(pat, 40), "error": err.Error()})
+				continue
+			}
+			got := map[string]bool{}
+			for _, c := range res {
+				got[c.Destination] = true
+			}
+			for _, w := range want {
+				if !got[w] {
+					run.Violate("C05/glob-destination-not-a-directory-for-the-matches", map[string]any{"pattern": ev.Short(pat, 60), "missing": w, "plan": ev.Short(planString(res), 400)})
+				}
+			}
+		}
+	}
 	// a tree whose source is the current directory itself keeps the leading dots
 	// of the names it holds (serial: the working directory is process-wide)
 	{
